@@ -84,7 +84,8 @@ var namePool = []string{"a", "b", "c", "d", "foo", "bar", "a/b", "m~n", "~0", "~
 	"<k&>", "k ", "é", "😀", "x y", "q\"t", "b\\s", "", "-1", "10", "rate%d", "%v", "100% sure", "%w", "%", "\foo", "b\bk", "c\x01d", "\x7fdel", "v\vt", "\U000e0001tag", "\xe2\x80bad", "\x1b"}
 var plainNames = []string{"a", "b", "c", "d", "e", "foo", "bar", "baz", "k1", "k2", "p%s"}
 var numPool = []string{"0", "-0", "1", "2", "3", "1.0", "1e400", "1E+2", "12345678901234567890123", "-1.5e-3", "10",
-	"100", "2.50", "0.1", "-7", "1e2", "100.0", "0.10"}
+	"100", "2.50", "0.1", "-7", "1e2", "100.0", "0.10", "9007199254740993", "9007199254740992", "0.10000000000000001", "1e-400", "2e-400",
+	"0.30000000000000004", "0.30000000000000005", "9007199254740992.0", "16777217", "16777216"}
 var strPool = []string{"", "s", "t", "<>&", "a\"b", "back\\slash", "tab\t", " x", "é", "😀", "line\n", "/", "~",
 	"null", "0", "x<y", " ", "\x7f", "\x01", "long string with spaces",
 	// code points at the encoding boundaries (UTF-8 lengths, surrogate arithmetic)
@@ -154,6 +155,14 @@ func genValue(r *rng, c genCfg, depth int) *jv {
 func genObj(r *rng, c genCfg, depth int) *jv {
 	n := r.n(c.maxMember + 1)
 	v := &jv{kind: kObj}
+	if depth <= 1 && r.chance(1, 40) {
+		// a WIDE object (thresholds on the number of members sit at 8, 16, 32, 64): atoms under the names w0, w1, …
+		w := []int{7, 8, 9, 15, 16, 17, 18, 31, 32, 33, 40, 64, 65}[r.n(13)]
+		for i := 0; i < w; i++ {
+			v.keys = append(v.keys, fmt.Sprintf("w%d", i))
+			v.vals = append(v.vals, genValue(r, c, c.depth))
+		}
+	}
 	for i := 0; i < n; i++ {
 		var name string
 		if c.plain || r.chance(2, 3) {
